@@ -198,6 +198,9 @@ impl OpenStreamIndex {
         index: &BTreeMap<StreamId, StreamIndexRecord<Vec<u64>>>,
         bloom: &Bloom<str>,
     ) -> Result<(Mphf<StreamId>, u64), StreamIndexError> {
+        #[cfg(feature = "verif-hooks")]
+        crate::verif::pause("index-flush:start");
+
         // Collect all keys from the index as strings
         let keys: Vec<_> = index.keys().cloned().collect();
         let n = keys.len() as u64;
